@@ -785,13 +785,14 @@ class ScriptGen:
                 rv, rt = self.uvec([(c, None if e is None else self.node(e)) for c, e in v.a])
                 self.h.append('Gv:%d:%d:%d:%d' % (t, j, rt, rv))
                 madds.append('o/%d/%d' % (f.id - 1, rt)); madds.append('o/%d/%d' % (f.id, rv)); kept.append((f, v))
-            elif v.kind == 'nested' and rng.random() < 0.6:
+            elif v.kind == 'nested' and rng.random() < (1.0 if getattr(self, 'nest_only', False) else 0.6):
                 # the GENERATED routes of a nested_flatbuffer field (see gen_glue_build, op Gn)
                 idw = int.from_bytes(s.ident.encode(), 'little') if s.ident else 0
                 variants = ['n', 'N']
                 if v.a in s.structs:
                     variants += ['s', 'S', 'k', 'K'] + (['c', 'C'] if flat_struct(s, v.a) else [])
-                var = rng.choice(variants)
+                forced = getattr(self, 'nest_only', False)
+                var = rng.choice(['n', 'N']) if forced else rng.choice(variants)
                 self.stat('nested_generated_' + var)
                 v.c['with_size'] = False; v.c['style'] = 'gen'
                 if var in 'nN':
@@ -807,12 +808,12 @@ class ScriptGen:
                         elif x.kind == 'uvec':
                             for _, e in x.a:
                                 if e is not None: plain(e)
-                    plain(v.b)
+                    plain(v.b); v.c['indep'] = True
                     enc = IndepEncoder(s, rng, extra_pad=False)
                     data = enc.buffer(v.a, v.b, False, None)
                     if v.a in s.structs:
                         A = s.struct_layout(v.a)[1]
-                        arg = rng.choice([0, 0, 1, 4, A, 2 * A])
+                        arg = rng.choice([0, 1, 4]) if forced else rng.choice([0, 0, 1, 4, A, 2 * A])
                         eff = max(arg, A)
                     else:
                         arg = rng.choice([0, enc.maxal, max(enc.maxal, 16)]) if enc.maxal <= 8 else rng.choice([enc.maxal, 2 * enc.maxal])
@@ -938,7 +939,7 @@ class ScriptGen:
                     for _, e in x.a:
                         if e is not None: plain(e)
             plain(n.b)
-            o['with_size'] = False
+            o['with_size'] = False; o['indep'] = True
             enc = IndepEncoder(self.s, self.rng, extra_pad=False)
             data = enc.buffer(n.a, n.b, False, None)
             al = max(enc.maxal, o.get('embed_align', 0))
@@ -1374,7 +1375,8 @@ def object_positions(s, node, rd, tpos, pos, level=0):
             vec = rd.follow(fp)
             for i, (c, e) in enumerate(v.a):
                 if e is not None and e.kind in ('str', 'table'): visit(e, rd.follow(vec + 4 + 4 * i))
-        elif k == 'nested' and v.b.kind == 'table':
+        elif k == 'nested' and v.b.kind == 'table' and not v.c.get('indep'):
+            # (bytes laid out by the independent encoder - embed_buffer / <field>_nest - do not share objects)
             nb = rd.follow(fp) + 4
             object_positions(s, v.b, rd, rd.follow(nb), pos, level * 1000 + fp)
 
